@@ -14,6 +14,7 @@ UNIT = {
                                         'ret': 'r', 'ensures': 'r == self.range'},
         'DiagnosticAction::is_match': {
             'src': {'file': ACT, 'kind': 'fn', 'impl': 'DiagnosticAction', 'name': 'is_match'},
+            'rules': [('is-some-and', {'optional': True})],
             'ret': 'r',
             'requires': 'self.range.wf(), range.wf()',
             'ensures': '''r ==> covers(self.range, *range) /*@C19.match.only-inside-scope*/,
